@@ -172,6 +172,29 @@ def run(ctx):
         ctx.case(("D15 witness",), nontrivial=True)
     except Exception as ex:
         ctx.impl_violation(f"D15 witness raised {type(ex).__name__}: {ex}", dict(case="D15 witness", n_lines=8, B=3, offsets=D15["off"].tolist(), disorder=0.1, seed=D15["seed"]))
+    # the witnesses of fixed defect D16 (a group of rhombi cut loose by the clipping: two connected components) run next
+    for n16, seed16 in ((8, 23), (6, 74), (8, 87)):
+        try:
+            np.random.seed(seed16)
+            off16 = np.random.random(3) * 2 - 1
+            with warnings.catch_warnings():
+                warnings.simplefilter("ignore")
+                lw = qc.de_brujin_grid(n16, 3, off16, 0.1)
+            Vw = lw.n_vertices
+            par = list(range(Vw))
+            def find(a):
+                while par[a] != a:
+                    par[a] = par[par[a]]; a = par[a]
+                return a
+            for a_, b_ in lw.edges.indices:
+                par[find(int(a_))] = find(int(b_))
+            ncomp = len({find(a_) for a_ in range(Vw)})
+            if ncomp != 1 or Vw - lw.n_edges + lw.n_plaquettes != 1:
+                ctx.impl_violation(f"D16 witness de_brujin_grid({n16}, 3, offsets drawn after np.random.seed({seed16}), 0.1): {ncomp} connected components, V-E+F = {Vw - lw.n_edges + lw.n_plaquettes}",
+                                   dict(case="D16 witness", n_lines=n16, B=3, offsets=off16.tolist(), disorder=0.1, seed=seed16))
+            ctx.case(("D16 witness", n16, seed16), nontrivial=True)
+        except Exception as ex:
+            ctx.impl_violation(f"D16 witness raised {type(ex).__name__}: {ex}", dict(case="D16 witness", n_lines=n16, B=3, disorder=0.1, seed=seed16))
     lines = [5, 6, 8] if quick else list(range(5, 15))
     for B in Bs:
         for n_lines in lines:
@@ -224,6 +247,54 @@ def run(ctx):
                             ctx.corr_break(f"{name}: index vectors could not be reconstructed from the output", dict(case=name)); continue
                         reqs.append(dict(op="quasi", B=B, idx=idx, edges=l.edges.indices.tolist(), gens=relation_generators(B)))
                         meta.append(name)
+    # ---- strong angle disorder with seven and nine bundles: neighbouring (nearly antiparallel) bundles can be turned past each other, the grid's own directions
+    #      - not the regular star - decide the tiling.  Small global seeds, five lines per bundle (cheap), generic offsets
+    for B in (7, 9):
+        for seed in range(8 if quick else 60):
+            off = rng.uniform(-0.5, 0.5, size=B)
+            name = f"de_brujin_grid(lines=5, B={B}, offsets=generic, disorder=0.1, seed={seed})"
+            rep = lambda what, **kw: ctx.impl_violation(f"{name}: {what}", dict(case=name, n_lines=5, B=B, offsets=off.tolist(), disorder=0.1, seed=seed, **kw))
+            np.random.seed(seed)
+            st = np.random.get_state()
+            angles = np.arange(B) * (2 * np.pi / B) + 0.1 * (np.random.random(B) - 0.5) * 2 * np.pi
+            np.random.set_state(st)
+            if nongeneric(B, 5, off, angles):
+                ctx.count("precondition_excluded_nongeneric_offsets"); continue
+            try:
+                with warnings.catch_warnings():
+                    warnings.simplefilter("ignore")
+                    l = qc.de_brujin_grid(5, B, off, 0.1)
+            except Exception as ex:
+                if "small" in str(ex):
+                    ctx.count("excluded_dual_too_small"); continue
+                rep(f"raised {type(ex).__name__}: {ex}"); continue
+            judge(ctx, name, l, B, angles, 0.1, rep)
+            ctx.case((name,), nontrivial=True)
+            ctx.count("strong_disorder_runs")
+    # ---- three bundles with strong disorder, default offsets, many small global seeds: the clipping now and then leaves a face hanging on leaves only
+    #      (what D15 was about); cheap, so many of them
+    for n_lines, kind in ((6, "default"), (8, "default"), (6, "drawn"), (7, "drawn"), (8, "drawn")):
+        for seed in range(30 if quick else 300):
+            np.random.seed(seed)
+            off3 = None if kind == "default" else np.random.random(3) * 2 - 1          # generic offsets drawn from the global generator, as a user would
+            name = f"de_brujin_grid(lines={n_lines}, B=3, offsets={kind}, disorder=0.1, seed={seed})"
+            rep = lambda what, **kw: ctx.impl_violation(f"{name}: {what}", dict(case=name, n_lines=n_lines, B=3, offsets=None if off3 is None else off3.tolist(), disorder=0.1, seed=seed, **kw))
+            st = np.random.get_state()
+            angles = np.arange(3) * (2 * np.pi / 3) + 0.1 * (np.random.random(3) - 0.5) * 2 * np.pi
+            np.random.set_state(st)
+            if nongeneric(3, n_lines, np.full(3, 0.2) if off3 is None else off3, angles):
+                ctx.count("precondition_excluded_nongeneric_offsets"); continue
+            try:
+                with warnings.catch_warnings():
+                    warnings.simplefilter("ignore")
+                    l = qc.de_brujin_grid(n_lines, 3, off3, 0.1)
+            except Exception as ex:
+                if "small" in str(ex):
+                    ctx.count("excluded_dual_too_small"); continue
+                rep(f"raised {type(ex).__name__}: {ex}"); continue
+            judge(ctx, name, l, 3, angles, 0.1, rep)
+            ctx.case((name,), nontrivial=True)
+            ctx.count("three_bundle_disorder_runs")
     for t in range(3 if quick else 25):
         seed = int(rng.integers(2 ** 31)); n = int(rng.integers(5, 9 if quick else 13))
         name = f"penrose_tiling({n}) seed={seed}"
